@@ -105,9 +105,26 @@ def concretise(chk, sc, cfgseed, ndims, style=None):
     # CROWD: the level the model describes shares its binary files with hundreds of further, well-formed boxes (one cell each,
     # far along the first axis), stored IN FRONT of the modelled FABs of every file: counts pass every small threshold (255 / 256
     # boxes per file or per task), the modelled FABs stay the last ones of their files, and nothing about the requirement changes
-    nfill = CROWD if style.get("crowd") else 0
+    nfill = CROWD if style.get("crowd") else (1 if style.get("far") else 0)
     fill_file = []
-    if nfill:
+    if style.get("far"):
+        # FAR: one further box of zeros, more than 2 GiB of payload stored as a hole, in front of the modelled FABs of the first
+        # file: every recorded position of that file lies beyond 2**31 (what a 32-bit offset cannot hold)
+        Lc = ap["levels"][lv]
+        cross = 1
+        for dd in range(1, ndims):
+            cross *= ap["dom"][dd] * 2 ** lv
+        nx = -(-(2 ** 31 + 2 ** 20) // (cross * NF * 8))
+        w_lv = ap["dom"][0] * 2 ** lv
+        ap["dom"][0] += -(-nx // 2 ** lv)
+        lo = [w_lv] + [0] * (ndims - 1)
+        hi = [w_lv + nx - 1] + [ap["dom"][dd] * 2 ** lv - 1 for dd in range(1, ndims)]
+        Lc["boxes"].append({"lo": lo, "hi": hi, "filler": True, "sparse": True})
+        f = Lc["file"][0]
+        fill_file.append(f)
+        Lc["file"].append(f)
+        Lc["disk"][str(f)] = [nb + 1] + list(Lc["disk"][str(f)])
+    elif nfill:
         Lc = ap["levels"][lv]
         used = sorted(set(Lc["file"]))
         # (inside the domain, which is made longer along the first axis to hold them)
@@ -128,11 +145,17 @@ def concretise(chk, sc, cfgseed, ndims, style=None):
     fill_off = {}
     for i in range(nfill):
         f = fill_file[i]
-        fab = len(gamma.fab_header(L["boxes"][nb + i]["lo"], L["boxes"][nb + i]["hi"], NF)) + 8 * NF
+        fab = len(gamma.fab_header(L["boxes"][nb + i]["lo"], L["boxes"][nb + i]["hi"], NF)) + 8 * NF * gamma.box_cells(L["boxes"][nb + i])
         fill_off[i] = prefix.get(f, 0)
         prefix[f] = prefix.get(f, 0) + fab
     prefix_blob = {}
+    kept_aside = {}
     for f, n in prefix.items():
+        if style.get("far"):
+            # too large to hold in memory: the file is kept aside and cut back to the filler when it is rewritten
+            kept_aside[f] = os.path.join(d, "aside_%d" % f)
+            os.rename(os.path.join(ldir, gamma.file_name(f, cfg_)), kept_aside[f])
+            continue
         with open(os.path.join(ldir, gamma.file_name(f, cfg_)), "rb") as bf:
             prefix_blob[f] = bf.read(n)
     # keep the min/max tables of the pristine level header
@@ -215,7 +238,13 @@ def concretise(chk, sc, cfgseed, ndims, style=None):
                 os.symlink(os.path.join(ldir, "purged", "nowhere"), gp)
             else:
                 os.makedirs(gp)
-        if f not in gone:
+        if f not in gone and f in kept_aside:
+            os.rename(kept_aside.pop(f), os.path.join(ldir, gamma.file_name(f, cfg_)))
+            with open(os.path.join(ldir, gamma.file_name(f, cfg_)), "r+b") as bf:
+                bf.truncate(prefix[f])
+                bf.seek(prefix[f])
+                bf.write(b"".join(out))
+        elif f not in gone:
             with open(os.path.join(ldir, gamma.file_name(f, cfg_)), "wb") as bf:
                 bf.write(prefix_blob.get(f, b"") + b"".join(out))
 
@@ -234,6 +263,9 @@ def concretise(chk, sc, cfgseed, ndims, style=None):
             else:
                 with open(pth, "r+b") as bf:
                     bf.truncate(os.path.getsize(pth) - (unit - k))   # only k bytes of the added unit stay
+
+    for pth_ in kept_aside.values():
+        os.remove(pth_)                 # the file the filler sat in is one the model deleted
 
     def off_bytes(f, off):
         p = byte_pos.get(f)
